@@ -7,7 +7,7 @@ Alphabet (one *cell* = one way an application fills in a response)
   stack    wsgi | asgi
   status   200 {int, '200 OK', HTTPStatus, custom line}, 201 int, 299 {int, custom line},
            404 {int, HTTPStatus}, 599 int, and 100/101/204/304 each as int / standard
-           line / line with a custom reason / HTTPStatus                  (26; quick: 9)
+           line / line with a custom reason / HTTPStatus                  (26)
   method   GET, HEAD, POST
   body     all 16 subsets of {text, data, media, stream}
   stream   WSGI: list, generator, iterator with/without close(), file-like with/without
@@ -72,8 +72,6 @@ CUSTOM = {200: 'Okay', 299: 'Whatever', 100: 'Go On', 101: 'Switch', 204: 'Nothi
 STATUS_FULL = ([(200, 'int'), (200, 'line'), (200, 'enum'), (200, 'custom'), (201, 'int'), (299, 'int'),
                 (299, 'custom'), (404, 'int'), (404, 'enum'), (599, 'int')]
                + [(c, f) for c in (204, 304, 100, 101) for f in ('int', 'line', 'enum', 'custom')])
-STATUS_QUICK = [(200, 'int'), (200, 'line'), (404, 'enum'), (299, 'int'), (204, 'int'), (204, 'custom'),
-                (304, 'line'), (101, 'enum'), (100, 'custom')]
 METHODS = ('GET', 'POST', 'HEAD')
 
 
@@ -551,9 +549,18 @@ def first_fault(rec):
     return rec.faults[0][0] if rec.faults else 'none'
 
 
-def run_cell(cell, bound, rep):
+def faultable_cell(cell, e, wide):
+    """Fault points are offered where the model says the body is streamed; in the
+    thorough tier in every cell that assigns a stream at all (send/abandon faults on
+    responses whose stream must stay untouched)."""
+    if wide:
+        return bool(cell.mask & STREAM)
+    return e.src == 'stream' and not e.suppressed
+
+
+def run_cell(cell, bound, rep, wide=False):
     e = model(cell)
-    faultable = e.src == 'stream' and not e.suppressed
+    faultable = faultable_cell(cell, e, wide)
     rep.state()
 
     def run(ch):
@@ -563,17 +570,20 @@ def run_cell(cell, bound, rep):
         viols = judge(cell, e, res, rec)
         choices = list(ch.choices) if ch is not None else []
         for kind, extra, msg in viols:
-            sig = {'kind': kind, 'stack': cell.stack, 'status': cell.form, 'cls': _cls(cell),
-                   'head': 'yes' if cell.method == 'HEAD' else 'no', 'fault': first_fault(rec)}
-            if kind == 'close-count':
+            # status form: only "line with a non-standard reason" vs. the rest matters to the code paths
+            sig = {'kind': kind, 'stack': cell.stack, 'status': 'custom' if cell.form == 'custom' else 'standard',
+                   'fault': first_fault(rec)}
+            if kind == 'bodiless-has-body':
+                sig['why'] = 'status' if cell.code in BODILESS else 'HEAD'
+            if kind in ('close-count', 'generator-not-finalized', 'body-under-fault'):
                 sig['stream'] = cell.kind
             sig.update(extra)
-            rep.violation(sig, {'cell': cell.to_dict(), 'choices': choices},
+            rep.violation(sig, {'cell': cell.to_dict(), 'choices': choices, 'wide': wide},
                           '%s; faults=%r: %s' % (cell.describe(), rec.faults, msg))
         oc = '%s/%s/%s/%s' % (cell.stack, 'suppressed' if e.suppressed else e.src, first_fault(rec),
                               'viol' if viols else 'ok')
         rep.outcome(oc)
-        if rec.pulls or e.suppressed:
+        if rec.pulls or rec.faults:
             rep.nt((cell.key(), tuple(choices)))
         if rec.faults:
             rep.c['executions_with_fault'] += 1
@@ -597,7 +607,7 @@ def popcount(m):
 
 def gen_cells(tier, seed):
     quick = tier == 'quick'
-    statuses = STATUS_QUICK if quick else STATUS_FULL
+    statuses = STATUS_FULL
     ckraw = [(0, 0), (1, 1), (2, 0)] if quick else [(0, 0), (1, 0), (0, 1), (1, 1), (2, 0), (2, 1)]
     masks = sorted(range(16), key=lambda m: (popcount(m), m))
     cells = []
@@ -640,7 +650,7 @@ def gen_cells(tier, seed):
                                                       falsy=falsy, seed=seed))
     nb = len(cells) - na
     # part C: stream shapes
-    shapes = [(), (b'a',), (b'a', b'', b'b'), (b'ab', b'c', b'd')]
+    shapes = [(), (b'a',), (b'a', b'', b'b'), (b'ab', b'c', b'd')] + ([] if quick else [(b'', b'a'), (b'a', b'b', b'c', b'd')])
     for shape in shapes:
         for cl in ('unset', 'correct'):
             for klass in ('std', 'sub'):
@@ -658,7 +668,7 @@ def run_batch(shard, rep):
     tier, seed, lo, hi, bound = shard
     cells, _ = _cells(tier, seed)
     for cell in cells[lo:hi]:
-        run_cell(cell, bound, rep)
+        run_cell(cell, bound, rep, wide=(tier == 'thorough'))
         if cell.mask == STREAM and cell.method == 'GET' and cell.code == 200 and cell.cl == 'unset':
             rep.sample(cell.describe())
 
@@ -680,7 +690,7 @@ def check(rep):
         for klass in ('std', 'sub'):
             get_app(stack, klass)
     rep.bounds = {'cells': len(cells), 'parts': parts, 'max_fault_deviations': bound,
-                  'statuses': [repr(status_value(c, f)) for c, f in (STATUS_QUICK if rep.tier == 'quick' else STATUS_FULL)],
+                  'statuses': [repr(status_value(c, f)) for c, f in STATUS_FULL],
                   'methods': list(METHODS), 'body_subsets': 16, 'wsgi_stream_kinds': list(S.WSGI_KINDS),
                   'asgi_stream_kinds': list(S.ASGI_KINDS), 'preset_content_length': ['unset', 'correct', 'wrong'],
                   'preset_content_type': [False, True], 'response_classes': ['std', 'render_body-subclass'],
@@ -703,8 +713,7 @@ def replay(rec):
     cell = Cell.from_dict(rec['cell'])
     e = model(cell)
     choices = tuple(rec.get('choices') or ())
-    faultable = e.src == 'stream' and not e.suppressed
-    ch = choice.Chooser(choices) if faultable else None
+    ch = choice.Chooser(choices) if (choices or faultable_cell(cell, e, rec.get('wide', False))) else None
     res, r = execute(cell, e, ch)
     viols = judge(cell, e, res, r)
     return {'violation': bool(viols), 'cell': cell.describe(), 'faults': r.faults,
